@@ -166,6 +166,13 @@ def check_enum_dispatch(F, R, I, f, fv, ks):
             sw = tt
             break
     if sw is None:
+        # no match on the variants: acceptable when the method only delegates to other wrapper methods of the same type on `self`
+        # (`is_empty()` = `self.len() == 0`), which are themselves checked here
+        own = [t for _, t in fv.calls if re.search(r"backend::VartimePrecomputedStraus::\w+$", cname(t))]
+        foreign = [t for _, t in fv.calls if re.search(r"scalar_mul::|backend::(serial|vector)::", cname(t))]
+        if own and not foreign and all(root(fv, t["args"][0])[:2] == ("arg", 1) for t in own):
+            R.ok("C05.dispatch", I("precomputed." + name + ":switch"), "delegates to %s on self (each matches on the variants)" % ", ".join(sorted({cname(t).split("::")[-1] for t in own})))
+            return
         R.viol("C05.dispatch", I("precomputed." + name + ":switch"), "wrapper method does not match on its variants", F.loc(f))
         return
     arms = {v for v, _ in sw["targets"]}
